@@ -181,7 +181,8 @@ def c11_after_history(E, k=1):
     env.for_path(E)
     S = State()
     m = base_model(E, sym_coef=False)
-    names = [n for n in OPS if n not in ("copy", "merge", "detached_edit", "cons_vars")]
+    # user constraints (cons_vars, fix_objective) are not part of the dict / JSON / YAML formats
+    names = [n for n in OPS if n not in ("copy", "merge", "detached_edit", "cons_vars", "fix_objective")]
     for i in range(k):
         try:
             OPS[E.pick("pre_op%d" % i, names)][0](E, m, S)
